@@ -1,6 +1,7 @@
 import itertools
 from vlib.core import Query
 from checks import pipeseq as ps
+from checks import C06
 
 OPN = ["register R0", "register R1", "unregister R0", "unregister R1", "connect A->B", "disconnect A", "connect B->S0", "connect B->S1",
        "disconnect B", "S0 answers", "S1 answers"]
@@ -14,9 +15,12 @@ CLAIM = {
             "exactly once with the sink the chain currently ends at and with nobody else; nothing of an unregistered request is lodged "
             "anywhere; a sink is only asked to withdraw what is lodged with it; an answer reaches the original requester's callback exactly "
             "once, with the provider's value; after unregister the callback is never invoked again. At the end everything is released and "
-            "all proxies are freed (memory-leak check).",
-    "note": "Trusted: as C04. Bounds: chain of 2 pipes, 2 requests of type sink-latency, histories of <= 4-5 operations. Not covered: the "
-            "out-of-band request path across upipe_queue_sink / upipe_queue_source (threads: see C06 not_applicable), "
+            "all proxies are freed (memory-leak check). ACROSS A THREAD QUEUE (real upipe_queue_sink / upipe_queue_source in "
+            "harness/C06_queue.c, the two event loops sequentialised at callback granularity): a request registered on the queue sink is "
+            "lodged with the provider behind the queue source, the provider's answer reaches the original requester with its value, an "
+            "answer still travelling when the request is unregistered is dropped (callback never invoked after unregister), and after "
+            "teardown nothing stays lodged -- for every placement of the out-of-band callbacks between register / answer / unregister.",
+    "note": "Trusted: as C04. Bounds: chain of 2 pipes, 2 requests of type sink-latency, histories of <= 4-5 operations. Across the queue: one request, callback granularity (see C06's note). Not covered: "
             "helper_ubuf_mgr / uref_mgr / uclock / flow_format requesters, probes as providers (uprobe_ubuf_mem etc.), bin pipes.",
     "technique": "CBMC bounded model checking of real C pipes with a request-routing invariant checked after every operation; complete "
                  "enumeration of valid operation sequences, symbolic answer values",
@@ -59,12 +63,25 @@ def build(tier):
                         unwind=max(8, len(sq) + 2), unwindset=ps.UW, fp_restrict=True, timeout=280 if quick else 900, leak=True,
                         replay_witness=(i % 60 == 9),
                         sample={"operations": [OPN[o] for o in sq], "answer_value": "symbolic 64-bit"} if i % 90 == 9 else None))
+    # the same rule across a thread queue (harness/C06_queue.c: real queue sink + queue source, mock event loops, eventfd
+    # model): register on the sink / the provider behind the source answers / unregister, with the out-of-band callbacks
+    # of both loops (8 consumer, 15 producer) placed everywhere between them
+    QB = [[8], [15], [8, 15], [8, 14, 15]]
+    qsched = C06.schedules([12, 14, 13, 4], QB[:3] if not quick else QB[:2], 2) + C06.schedules([0, 2, 12, 14, 2, 13, 4], QB[:2], 1)
+    if not quick:
+        qsched += C06.schedules([12, 14, 13, 4], QB, 3) + C06.schedules([12, 14, 13, 12, 14, 4], QB[:3], 2) + C06.schedules([12, 14, 4], QB[:3], 2)
+    for i, ops in enumerate(qsched):
+        n = "qreq_" + "-".join(map(str, ops))
+        if n in seen:
+            continue
+        seen.add(n)
+        qs.append(C06.q(n, ops, 1, timeout=280 if quick else 900, replay=(i % 20 == 3), sample=(i % 40 == 3)))
     meta = {"bounds": {"chain": "2 real pipes + 2 sinks", "requests": 2, "sequence_length": "3 (+10 longer scenarios)" if quick else "<= 4 (and 3 + 3)",
                        "sequences": len(qs)},
             "exhaustive": True,
             "rule": "every valid sequence (register only an unregistered request, unregister only a registered one) over the stated alphabet "
                     "and length is one query",
             "assumptions": ps.COMMON_ASSUME[1:] + ["the requester unregisters its requests before releasing the pipes (ownership rule of urequest)"],
-            "outside": ["requests crossing a thread queue (qsink / qsrc out-of-band path)", "chains longer than 2 pipes", "probes as providers",
+            "outside": ["interleavings finer than a callback across the queue", "chains longer than 2 pipes", "probes as providers",
                         "helper_ubuf_mgr / helper_uref_mgr / helper_uclock / helper_flow_format"]}
     return qs, meta
